@@ -277,13 +277,16 @@ impl StakeKeeper {
         validator_commission: Decimal,
         stake: Uint128,
     ) -> Decimal {
-        // calculate time since last update (in seconds)
-        let time_diff = current_time.minus_seconds(since.seconds()).seconds();
+        // calculate time since last update (in seconds, with the sub-second part: truncating both
+        // timestamps to whole seconds credits a full second for an interval that crossed a second
+        // boundary, and nothing for one that did not)
+        let time_diff = Decimal::from_ratio(
+            current_time.nanos().saturating_sub(since.nanos()),
+            1_000_000_000u128,
+        );
 
         // using decimal here to reduce rounding error when calling this function a lot
-        let reward = Decimal::from_ratio(stake, 1u128)
-            * interest_rate
-            * Decimal::from_ratio(time_diff, 1u128)
+        let reward = Decimal::from_ratio(stake, 1u128) * interest_rate * time_diff
             / Decimal::from_ratio(YEAR, 1u128);
         let commission = reward * validator_commission;
 
